@@ -273,6 +273,12 @@ func (g *c40Gen) next() (metadb.MessageEventAppend, string) {
 		case 1: // exact replay of an earlier event (late retry, other leader re-sending)
 			ev := g.sent[t.Intn(len(g.sent))]
 			g.r.Fault("event_replay")
+			if t.Chance(1, 4) {
+				// the same event once more, but naming another lane (or none: the default lane)
+				ev.EventKey = g.lanes[t.Intn(len(g.lanes))]
+				g.r.Fault("event_replay_other_lane")
+				return ev, "replay-rekeyed"
+			}
 			return ev, "replay"
 		case 2: // same event id, different content (competing leader reusing the id)
 			old := g.sent[t.Intn(len(g.sent))]
